@@ -1,7 +1,9 @@
 (* C02 — Intra pictures reconstruct exactly as H.263 prescribes.
    Proved so far (the composition over whole pictures is tied by execution against the
    reference reconstruction, see DESIGN.md): *)
-From H263V Require Import base.Prelude spec.SpecRecon model.Types model.Tables model.Syntax model.Recon model.Decoder proofs.ReconSpec proofs.RlePlacement model.Reader spec.SpecTables proofs.VlcTables model.F32 proofs.PlaneShape proofs.GatherSpec proofs.IdctPlacement model.Header model.Decoder spec.SpecHeader proofs.BlockRoundTrip proofs.MacroblockRoundTrip proofs.PictureRoundTrip proofs.IntraPicture.
+From H263V Require Import base.Prelude spec.SpecRecon model.Types model.Tables model.Syntax model.Recon model.Decoder proofs.ReconSpec proofs.RlePlacement model.Reader spec.SpecTables proofs.VlcTables model.F32 proofs.PlaneShape proofs.GatherSpec proofs.IdctPlacement model.Header model.Decoder spec.SpecHeader proofs.BlockRoundTrip proofs.MacroblockRoundTrip proofs.PictureRoundTrip proofs.IntraPicture proofs.IdctAccuracy proofs.PictureAccuracy.
+From Coq Require Import Reals.
+Local Open Scope Z_scope.
 
 (* every coefficient: sign(L) (Q (2|L|+1) - [Q even]) saturated to -2048..2047, for every quantizer and level *)
 Theorem C02_dequant_exact : forall q level, 0 <= q -> dequant q level = spec_dequant q level.
@@ -142,6 +144,42 @@ Theorem C02_intra_picture : forall o last reference running0 r0 hdr fmt w h fms 
        at_ (d_cr pic) x y = add_val (block_of (l_cr st') mpl x y) (x mod 8) (y mod 8) 0).
 Proof. exact reconstruct_intra. Qed.
 
+
+(* from the bits of an intra picture to the ACCURACY of every sample (composition of C02_intra_picture, the loop invariant
+   "every stored block is the classification of a placed, dequantised coefficient matrix" and the analytic float bound of
+   C10): each sample is within 0.632 of clip_0..255 of the exact inverse DCT (ideal4 / 4) of the coefficient matrix `coef`
+   of the block at its position, where coef is zero (nothing coded) or the zig-zag placement of the dequantised levels of
+   a block of the body (coef_source).  An integer within 0.632 of a real differs from a nearest rounding of it by at most 1,
+   and only where that real lies within 0.132 of a rounding boundary. *)
+Theorem C02_intra_picture_accurate : forall o last reference running0 r0 hdr fmt w h fms rest pos st',
+  let v1 := sorenson o && (match version hdr with Some 1 => true | _ => false end) in
+  let running := (if has_plusptype hdr && has_opptype hdr then options hdr
+                  else if has_plusptype hdr then Z.lor (Z.ldiff (options hdr) opptype_options) (Z.land running0 opptype_options)
+                  else Z.lor (Z.ldiff (Z.ldiff (options hdr) opptype_options) mpptype_options) (Z.land running0 (Z.lor opptype_options mpptype_options))) in
+  let mpl := (w + 15) / 16 in let mbh := (h + 15) / 16 in let levw := mpl * 16 in let levh := mbh * 16 in
+  let np := mkDecoded hdr fmt (new_plane w h) (new_plane ((w + 1) / 2) ((h + 1) / 2)) (new_plane ((w + 1) / 2) ((h + 1) / 2)) ((w + 1) / 2) in
+  let st0 := mkLoop (mkReader (enc_fulls true v1 fms ++ rest) pos) (quantizer hdr) [] []
+                    (repeatZ DctZero (levw * levh / 64)) (repeatZ DctZero (levw * levh / 4 / 64)) (repeatZ DctZero (levw * levh / 4 / 64)) in
+  decode_picture o (match last with Some p => Some (d_header p) | None => None end) r0 = Ok (Some hdr, mkReader (enc_fulls true v1 fms ++ rest) pos) ->
+  picture_type hdr = IFrame -> format hdr = Some fmt -> into_width_and_height fmt = Some (w, h) -> 1 <= w -> 1 <= h ->
+  simple_picture hdr running ->
+  Forall (wf_full true v1) fms -> loop_ok fms 0 (mpl * mbh) ->
+  pure_loop np running mpl levw fms st0 = Ok st' ->
+  exists pic pos',
+    reconstruct o last reference running0 r0 = Ok (pic, mkReader rest pos') /\
+    (forall x y, 0 <= x < w -> 0 <= y < h ->
+       exists coef, coef_source (block_of (l_luma st') (mpl * 2) x y) coef /\
+         (Rabs (IZR (at_ (d_luma pic) x y)
+                - Rclamp 0 255 (ideal4 (fun r f => coef (Z.of_nat f) (Z.of_nat r)) (Z.to_nat (x mod 8)) (Z.to_nat (y mod 8)) / 4)) <= 0.632)%R) /\
+    (forall x y, 0 <= x < (w + 1) / 2 -> 0 <= y < (h + 1) / 2 ->
+       (exists coef, coef_source (block_of (l_cb st') mpl x y) coef /\
+         (Rabs (IZR (at_ (d_cb pic) x y)
+                - Rclamp 0 255 (ideal4 (fun r f => coef (Z.of_nat f) (Z.of_nat r)) (Z.to_nat (x mod 8)) (Z.to_nat (y mod 8)) / 4)) <= 0.632)%R) /\
+       (exists coef, coef_source (block_of (l_cr st') mpl x y) coef /\
+         (Rabs (IZR (at_ (d_cr pic) x y)
+                - Rclamp 0 255 (ideal4 (fun r f => coef (Z.of_nat f) (Z.of_nat r)) (Z.to_nat (x mod 8)) (Z.to_nat (y mod 8)) / 4)) <= 0.632)%R)).
+Proof. exact reconstruct_intra_accurate. Qed.
+
 Print Assumptions C02_dequant_exact.
 Print Assumptions C02_intra_picture.
 Print Assumptions C02_picture_body_roundtrip.
@@ -152,3 +190,4 @@ Print Assumptions C02_code_tables.
 Print Assumptions C02_block_placement.
 Print Assumptions C02_zigzag_is_antidiagonal_walk.
 Print Assumptions C02_intradc_levels.
+Print Assumptions C02_intra_picture_accurate.
